@@ -3,11 +3,11 @@ package main
 // Forward symbolic execution of go/ssa (NaiveForm) with path splitting; emits obligations.
 
 import (
-	"os"
 	"fmt"
 	"go/constant"
 	"go/token"
 	"go/types"
+	"os"
 	"sort"
 	"strings"
 
